@@ -20,6 +20,7 @@ var commands = map[string]func([]string){
 	"conc-orders": cmdConcOrders,
 	"conc-free":   cmdConcFree,
 	"ownpost":     cmdOwnPost,
+	"system":      cmdSystem,
 }
 
 func main() {
